@@ -3,6 +3,7 @@
 From Coq Require Import List NArith ZArith.
 From SudachiVerif Require Generated.LexFacts.
 From SudachiVerif Require Import Model.Trie Model.WordIdTable Model.LexSet Proofs.TrieProofs Proofs.LexSetProofs.
+From SudachiVerif Require Model.Codec Model.CodecResolve Model.LexSetResolve Proofs.CodecResolveProofs Proofs.LexSetResolveProofs.
 Import ListNotations.
 Open Scope N_scope.
 
@@ -116,3 +117,30 @@ Theorem C12_joined_dictionary_parts : forall ws,
   exists w, In w ws /\ reported_dic (join_oov_wid ws) = Z.of_N (dic_of w).
 Proof. exact (joined_dictionary_parts C12_fact_layout). Qed.
 Print Assumptions C12_joined_dictionary_parts.
+
+(* ---- the public accessors (Morpheme::dictionary_id, Morpheme::is_oov) ---- *)
+Fact C12_fact_accessor_shape : accessor_shape_ok = true.
+Proof. vm_compute. reflexivity. Qed.
+
+(* for every dictionary number 0..14 -- also 8..14, whose number has the top bit of the 4-bit field set -- the accessor returns
+   that number; for the OOV sentinel it returns -1; and -1 is returned for nothing else *)
+Theorem C12_dictionary_id_accessor :
+  (forall d raw, d < 15 -> raw <= WORD_MASK -> reported_dic (stamp d raw) = Z.of_N d /\ is_oov (stamp d raw) = false) /\
+  (forall p, p <= WORD_MASK -> reported_dic (oov_id p) = (-1)%Z /\ is_oov (oov_id p) = true) /\
+  (forall w, reported_dic w = (-1)%Z <-> is_oov w = true).
+Proof. exact (dictionary_id_accessor C12_fact_layout). Qed.
+Print Assumptions C12_dictionary_id_accessor.
+
+(* ---- inline split references (composition with C05's resolution model, Model/CodecResolve.v) ---- *)
+(* a user dictionary loaded as dictionary d whose row holds the inline reference (surface, POS, reading): the loaded word
+   reports for it (d, i) with row i of the SAME dictionary the first row that has exactly these three, or -- only when no
+   row of the dictionary has them -- (0, i) with system word i the first that has them; in particular never a word of
+   the dictionary that merely shares the surface *)
+Theorem C12_inline_reference_names_word : forall d own sys s p rd w,
+  0 < d < 15 -> N.of_nat (length own) <= 268435456 -> N.of_nat (length sys) <= 268435456 ->
+  LexSetResolve.loaded_refs d own sys [CodecResolve.SInline s p rd] = Some [w] ->
+  (exists i, dic_of w = d /\ word_of w = N.of_nat i /\ CodecResolveProofs.first_match own i s p rd)
+  \/ ((forall k, In k own -> ~ CodecResolveProofs.key_is k s p rd) /\
+      exists i, dic_of w = 0 /\ word_of w = N.of_nat i /\ CodecResolveProofs.first_match sys i s p rd).
+Proof. exact (LexSetResolveProofs.inline_reference_loaded C12_fact_layout C12_fact_guards). Qed.
+Print Assumptions C12_inline_reference_names_word.
